@@ -623,12 +623,15 @@ def runArgWith (env : List (Nat × Val)) (F : FSpec) (C : CSpec) (byRef : Bool) 
   (run F.pre fs0).bind fun fs =>
   (boundary C fs).bind fun cs =>
   (run C.pre cs).bind fun cs =>
+  let rcv : Option Val := match call with
+    | .arg _ => cs.get C.callVar
+    | .result _ => none
   (match call with
     | .arg lib =>
       match cs.get C.callVar with
-      | some v => Res.ok (some v, cs.set C.callVar (lib v))
+      | some v => Res.ok (cs.set C.callVar (lib v))
       | none => Res.oob
-    | .result ret => Res.ok (none, cs.set 6 ret)).bind fun (rcv, cs) =>
+    | .result ret => Res.ok (cs.set 6 ret)).bind fun cs =>
   (run C.post cs).bind fun cs =>
   if cs.mode ≠ 0 then .oob else
   (if byRef then
